@@ -3652,6 +3652,13 @@ void space_text()
                           __func__, __LINE__, pc->Text(), next->Text());
                   pc->SetFlagBits(PCF_FORCE_SPACE);
                }
+               else if (  pc->GetStr()[pc->Len() - 1] == '/'
+                       && (  next->GetStr()[0] == '*'
+                          || next->GetStr()[0] == '/'))
+               {
+                  // a '/' followed by '*' or '/' would start a comment
+                  pc->SetFlagBits(PCF_FORCE_SPACE);
+               }
                // TODO:  what is the meaning of 4
                else if (  !kw1
                        && !kw2
